@@ -147,8 +147,7 @@ class World:
 
 
 def fresh_world():
-    base = "/dev/shm" if os.path.isdir("/dev/shm") else None
-    d = tempfile.mkdtemp(prefix="c07-", dir=base)
+    d = tempfile.mkdtemp(prefix="c07-", dir=H.TMP)
     for name, text in (("A.rules", A_RULES), ("B.rules", B_RULES), ("C.csv", C_CSV), ("D.csv", D_CSV), ("bad.rules", BAD_RULES)):
         with open(os.path.join(d, name), "w", encoding="utf-8") as f:
             f.write(text)
